@@ -20,6 +20,7 @@ from ..tree import sx, walk, pp, short_fn, strip_casts
 from .C20 import deep_unwrap
 from .C14 import stmts_sx
 from . import geo
+from .. import alg
 
 LEVEL = 'other'
 UNITS = ['src/geodesy/ENUConverter.cpp', 'src/geodesy/ECEFConverter.cpp', 'src/geodesy/EarthEllipsoid.cpp', 'src/geodesy/GeodeticCoordinates.cpp']
@@ -112,9 +113,9 @@ def check_frame(fx, R, fa, st, fwd, tag):
         R.undecided('E1', 'ENUConverter::setAnchor:frame' + tag, 'columns 0..2 of enu2ecef_.linear() are not each written with three entries')
         return
     G = sp.simplify(M.T * M - sp.eye(3))
-    R.check(G == sp.zeros(3, 3), 'E1', 'ENUConverter::setAnchor:orthonormal' + tag, 'R^T R - I = %s (should vanish)' % (G.tolist(),), 'R^T R = I', loc, 'E-ALG')
+    alg.check_zero(R, G, 'E1', 'ENUConverter::setAnchor:orthonormal' + tag, 'R^T R - I = %s (should vanish)' % (G.tolist(),), 'R^T R = I', loc)
     d = sp.simplify(M.det())
-    R.check(d == 1, 'E1', 'ENUConverter::setAnchor:determinant' + tag, 'det R = %s (a proper rotation needs +1: -1 is a mirrored frame)' % d, 'det R = +1', loc, 'E-ALG')
+    alg.check_zero(R, d - 1, 'E1', 'ENUConverter::setAnchor:determinant' + tag, 'det R = %s (a proper rotation needs +1: -1 is a mirrored frame)' % d, 'det R = +1', loc)
     syms = {s.name: s for s in M.free_symbols}
     latn = [n for n in syms if n.endswith('.latitude')]
     lonn = [n for n in syms if n.endswith('.longitude')]
@@ -127,9 +128,9 @@ def check_frame(fx, R, fa, st, fwd, tag):
         sub = {fwd['lat']: lat, fwd['lon']: lon}
         P = sp.Matrix([fwd['X'], fwd['Y'], fwd['Z']]).subs(sub)
         up = sp.simplify(P.diff(fwd['alt']))
-        R.check(sp.simplify(up - M[:, 2]) == sp.zeros(3, 1), 'E2', 'ENUConverter::setAnchor:up' + tag,
-                'col(2) = %s but the altitude direction of toECEF is %s: a point h above the reference does not map to (0,0,h)' % (M[:, 2].T.tolist(), up.T.tolist()),
-                'col(2) = d toECEF / d altitude', loc, 'E-ALG')
+        alg.check_zero(R, sp.simplify(up - M[:, 2]), 'E2', 'ENUConverter::setAnchor:up' + tag,
+                       'col(2) = %s but the altitude direction of toECEF is %s: a point h above the reference does not map to (0,0,h)' % (M[:, 2].T.tolist(), up.T.tolist()),
+                       'col(2) = d toECEF / d altitude', loc)
         de = P.diff(lon)
         cross = sp.simplify(M[:, 0].cross(de))
         dot = sp.simplify(M[:, 0].dot(de))
@@ -138,12 +139,13 @@ def check_frame(fx, R, fa, st, fwd, tag):
         sample = {sy: (sp.Rational(3, 10) if 'latitude' in sy.name else sp.Rational(1, 5) if 'longitude' in sy.name else sp.Integer(10) if 'altitude' in sy.name
                        else sp.Rational(1, 150) if sy.name.endswith('e2') else sp.Integer(6378137)) for sy in dot.free_symbols}
         positive = bool(dot.subs(sample).evalf() > 0)
-        R.check(cross == sp.zeros(3, 1) and unitlen == 0 and positive, 'E2', 'ENUConverter::setAnchor:east' + tag,
-                'col(0) x d toECEF/d lon = %s, (col(0) . d toECEF/d lon) = %s (expected parallel with a positive factor): the first axis does not point east' % (cross.T.tolist(), dot),
-                'col(0) = unit vector along d toECEF / d longitude', loc, 'E-ALG')
+        alg.check_zero(R, sp.Matrix(list(cross) + [unitlen]), 'E2', 'ENUConverter::setAnchor:east' + tag,
+                       'col(0) x d toECEF/d lon = %s, (col(0) . d toECEF/d lon) = %s (expected parallel with a positive factor): the first axis does not point east' % (cross.T.tolist(), dot),
+                       'col(0) = unit vector along d toECEF / d longitude', loc, extra_ok=positive,
+                       extra_what='col(0) is anti-parallel to d toECEF/d lon (col(0) . d toECEF/d lon = %s < 0 at a sample anchor): the first axis points west' % dot)
     north = sp.simplify(M[:, 2].cross(M[:, 0]) - M[:, 1])
-    R.check(north == sp.zeros(3, 1), 'E2', 'ENUConverter::setAnchor:north' + tag, 'col(1) - col(2) x col(0) = %s: the second axis is not north' % (north.T.tolist(),),
-            'col(1) = up x east', loc, 'E-ALG')
+    alg.check_zero(R, north, 'E2', 'ENUConverter::setAnchor:north' + tag, 'col(1) - col(2) x col(0) = %s: the second axis is not north' % (north.T.tolist(),),
+                   'col(1) = up x east', loc)
     # ---- E3 translation ---------------------------------------------------------
     t = st.fields.get(('this', 'enu2ecef_', 'translation()'))
     want = sp.Function('toECEF')(sp.Symbol(root + '.latitude', real=True), sp.Symbol(root + '.longitude', real=True), sp.Symbol(root + '.altitude', real=True))
